@@ -200,4 +200,131 @@ theorem render_roundtrip (f f' : Bool) (segs : List Seg) (hwf : wfSegs segs = tr
     rw [this, hsep, remarkFrom_idem, hS]
   · simp [L', L, remarkFrom_length]
 
+/-! ## `append` -/
+
+/-- the library's own rendering of one segment as it is appended (the leading `/` of forward-slash
+notation left off), given in its unescaped form -/
+def segText (f : Bool) (sg : Seg) : Str := renderFrom (sepOf f) false [keepEsc (sepOf f) sg]
+
+theorem wfFrom_append (sg : Seg) : ∀ (segs : List Seg) (ac : Bool),
+    wfFrom ac (segs ++ [sg]) = (wfFrom ac segs && wfSeg (lastIsColl ac segs) sg) := by
+  intro segs
+  induction segs with
+  | nil => intro ac; simp [wfFrom, lastIsColl]
+  | cons s r ih => intro ac; simp [wfFrom, lastIsColl, ih, Bool.and_assoc]
+
+theorem lastAc_toL {sep : Char} : ∀ (segs : List Seg) (ac : Bool), wfFrom ac segs = true →
+    lastAc ac (segs.map (toL sep)) = lastIsColl ac segs := by
+  intro segs
+  induction segs with
+  | nil => intro _ _; rfl
+  | cons s r ih =>
+    intro ac hw
+    simp only [wfFrom, Bool.and_eq_true] at hw
+    simp only [List.map_cons, lastAc, lastIsColl, (toL_flags sep s hw.1).1]
+    exact ih _ hw.2
+
+theorem remarkT_tokenize (sep : Char) (k : Str) : remarkT sep (tokenize sep k) = tokenize sep k := by
+  simp only [remarkT, tokenize, List.map_map]
+  apply List.map_congr_left
+  intro c _
+  simp only [Function.comp, markAll, Prod.mk.injEq, and_true]
+  by_cases hs : special sep c = true
+  · simp [hs]
+  · have hs' : special sep c = false := by simpa using hs
+    rw [hs', Bool.false_or]
+    simp only [special, Bool.or_eq_false_iff, decide_eq_false_iff_not] at hs'
+    obtain ⟨⟨⟨⟨⟨⟨⟨⟨⟨⟨⟨h1, h2⟩, h3⟩, h4⟩, h5⟩, h6⟩, h7⟩, h8⟩, h9⟩, h10⟩, h11⟩, h12⟩ := hs'
+    simp [keySyms, *]
+
+theorem remark1_toL_seg (sep : Char) (a strip : Bool) (sg : Seg) :
+    (remark1 sep a (toL sep sg)).seg strip = (toL sep sg).seg strip := by
+  obtain ⟨t, x⟩ := sg
+  cases t <;> cases x <;> try simp [toL, remark1, LSeg.seg, remarkT_tokenize]
+  case search.search inv m attr term => by_cases hm : m = .regex <;> simp [toL, hm, remark1]
+
+theorem normOriginal_append {t : Str} (x : Str) (hn : normOriginal t = t) (hne : t ≠ []) :
+    normOriginal (t ++ x) = t ++ x := by
+  unfold normOriginal at hn ⊢
+  split
+  · rename_i hall
+    have : t.all isPyWs = true := by
+      simp only [List.all_append, Bool.and_eq_true] at hall
+      exact hall.1
+    simp [this] at hn
+    exact absurd hn hne
+  · rfl
+
+/-- the text `append` builds for a written path and the canonical text of one more segment, read
+back without stripping the escapes -/
+theorem append_parse (f : Bool) (segs : List Seg) (sg : Seg) (hne : segs ≠ [])
+    (hwf : wfSegs (segs ++ [sg]) = true) (happ : appendable (lastIsColl false segs) sg = true)
+    (hx : f = true → fslashExpressible segs = true) :
+    let o1 := write f segs ++ sepOf f :: segText f sg
+    normOriginal o1 = o1 ∧
+    parseWith f false o1 = .ok (segs.map (keepEsc (sepOf f)) ++ [keepEsc (sepOf f) sg]) := by
+  intro o1
+  simp only [wfSegs, wfFrom_append, Bool.and_eq_true] at hwf
+  obtain ⟨hw, hwsg⟩ := hwf
+  have hw' : wfSegs segs = true := hw
+  let L := segs.map (toL (sepOf f))
+  let l := toL (sepOf f) sg
+  have hlw : l.WF (sepOf f) (lastIsColl false segs) := toL_wf sg hwsg
+  have hlo : RenderOK l := toL_renderOK sg hwsg
+  have hseg : segText f sg = (remark1 (sepOf f) false l).text (sepOf f) false := by
+    have h1 : keepEsc (sepOf f) sg = l.seg false := by
+      have := toL_seg (sep := sepOf f) false sg hwsg
+      simpa using this.symm
+    simp only [segText, renderFrom, List.append_nil, h1]
+    exact render_seg (sepOf_ok f) false l hlw hlo
+  have hfl := toL_flags (sepOf f) sg hwsg
+  have hl''w : (remark1 (sepOf f) false l).WF (sepOf f) (lastIsColl false segs) := by
+    apply remark1_wf false l hlw hlo _ (by simp)
+    intro _ hac top ts hl t ht
+    obtain ⟨ty, x⟩ := sg
+    cases ty <;> cases x <;> simp only [wfSeg, Bool.false_eq_true] at hwsg
+    case anchor.str a =>
+      simp only [l, toL, LSeg.anchor.injEq] at hl
+      obtain ⟨_, rfl⟩ := hl
+      simp only [appendable, hac, Bool.true_and, Bool.not_eq_true', Bool.or_eq_false_iff,
+        decide_eq_false_iff_not] at happ
+      cases a with
+      | nil => simp [tokenize] at ht
+      | cons c k =>
+        simp [tokenize] at ht
+        subst ht
+        right
+        simpa [and_assoc] using happ
+    case search.search inv m attr term =>
+      by_cases hm : m = .regex <;> simp [l, toL, hm] at hl
+    all_goals simp [l, toL] at hl
+  have hni : (remark1 (sepOf f) false l).isInter = false := by
+    rw [(remark1_flags _ _ l).2.1, hfl.2.1]
+    obtain ⟨ty, x⟩ := sg
+    cases ty <;> cases x <;> try rfl
+    case collector.collector e op => cases op <;> simp_all [appendable, isInterColl]
+  have htop : ((L.head?).map LSeg.isTop).getD false = false := by
+    cases hs : segs with
+    | nil => exact absurd hs hne
+    | cons s r =>
+      rw [hs] at hw
+      simp only [wfFrom, Bool.and_eq_true] at hw
+      simp [L, hs, (toL_flags _ s hw.1).2.2.2]
+  have hLw : wfFromL (if f then '/' else '.') false (f || ((L.head?).map LSeg.isTop).getD false) L := by
+    rw [htop, Bool.or_false]
+    exact toL_wfFrom segs false f hw' hx
+  have hT : textAll f L = write f segs := textAll_toL f segs hw'
+  have hLne : L ≠ [] := by simpa [L] using hne
+  have hwne : write f segs ≠ [] := by
+    rw [← hT]; exact textAll_ne f L hLw hLne
+  have hn : normOriginal o1 = o1 := normOriginal_append _ (write_nonblank f segs hw') hwne
+  refine ⟨hn, ?_⟩
+  have := parseWith_texts_snoc f false L (remark1 (sepOf f) false l) hLw hLne
+    (by rw [lastAc_toL segs false hw]; exact hl''w) hni o1
+    (by simp only [o1, hT, hseg]; rfl) hn
+  rw [this, map_seg_toL false segs false hw, remark1_toL_seg]
+  have h1 := toL_seg (sep := sepOf f) false sg hwsg
+  simp only [Bool.false_eq_true, ↓reduceIte] at h1 ⊢
+  rw [h1]
+
 end Ypv.Sim
